@@ -69,3 +69,15 @@ Proof.
       destruct a; cbn [class_of body_of]; cbn; rewrite ?eqb_str_refl; try reflexivity.
   - destruct (k_cached k); cbn; rewrite ?andb_false_r; reflexivity.
 Qed.
+
+Lemma validb_valid k : validb k = true -> valid k.
+Proof.
+  unfold validb, valid. intros H.
+  apply andb_true_iff in H as [H H4]. apply andb_true_iff in H as [H H3]. apply andb_true_iff in H as [H1 H2].
+  apply negb_true_iff in H1. split; [exact H1|]. split; [exact H2|]. split.
+  - intros Hfm. rewrite Hfm in H3. cbn [orb] in H3. unfold root_okb in H3.
+    apply andb_true_iff in H3 as [H3 Hn]. apply andb_true_iff in H3 as [Hs He].
+    apply negb_true_iff in He. apply eqb_str_iff in Hn. repeat split; assumption.
+  - intros p Hp. rewrite forallb_forall in H4. specialize (H4 p Hp).
+    destruct (table_lookup (k_table k) p); [discriminate|discriminate H4].
+Qed.
